@@ -34,7 +34,7 @@ Proof. exact c15_store_refused. Qed.
 
 Theorem c15_store_will : forall st client st' w,
   handle_last_will st client = Ok st' -> al_get str_eqb client (r_wills st) = Some w ->
-  utf8_valid (w_topic w) = true -> store_ok (dl_retained (r_datalog st)) ->
+  utf8_valid (w_topic w) = true -> w_topic w <> [] -> store_ok (dl_retained (r_datalog st)) ->
   let t := w_topic w in
   let m := dl_retained (r_datalog st) in
   let m' := dl_retained (r_datalog st') in
